@@ -100,7 +100,7 @@ let () = iter_lines (fun line ->
     let lz = z_of_string l and l1z = z_of_string l1 and l2z = z_of_string l2 in
     let pow2 x = 1 lsl (int_of_string x) in
     let big = zi 1000000000 in
-    let dump tnew nl calls gens =
+    let dump ?(older=[]) tnew nl calls gens =
       let buf = Buffer.create 256 in
       Buffer.add_string buf (Printf.sprintf "calls=%s gens=%d " (string_of_z calls) gens);
       for i = 0 to pow2 nl - 1 do
@@ -118,8 +118,9 @@ let () = iter_lines (fun line ->
       (* the modelled HashSet::Find (TableO2.find over the generated Bucket::Find) for every key *)
       Buffer.add_string buf " F:";
       List.iter (fun k ->
-        match TableO2.find tnew (z_of_string nl) k (hash k) with
-        | Ok (Some (b, s)) -> Buffer.add_string buf (string_of_z b ^ "." ^ string_of_z s ^ ",")
+        match TableO2.find_gens ((tnew, z_of_string nl) :: older) k (hash k) with
+        | Ok (Some ((g, b), s)) -> let gi = int_of_nat g in
+            Buffer.add_string buf ((if gi > 0 then "g" ^ string_of_int gi ^ ":" else "") ^ string_of_z b ^ "." ^ string_of_z s ^ ",")
         | Ok None -> Buffer.add_string buf "-,"
         | _ -> Buffer.add_string buf "?,") keys;
       print_endline (Buffer.contents buf) in
@@ -138,7 +139,7 @@ let () = iter_lines (fun line ->
        (match TableO2.migrate_from_c hash (nat_of_int (pow2 l)) t0 tnew0 lz l1z (zi 0) (if budget < 0 then big else zi budget) (zi 0) with
         | Ok (((t0', t1), c1), thrown) ->
           let gens1 = if thrown then 2 else 1 in
-          if int_of_string l2 = 0 then dump t1 l1 c1 gens1
+          if int_of_string l2 = 0 then dump ~older:(if thrown then [(t0', lz)] else []) t1 l1 c1 gens1
           else
             let gens = if thrown then [(t0', lz); (t1, l1z)] else [(t1, l1z)] in
             (match TableO2.migrate_gens hash gens TableO2.empty_table l2z big c1 with
@@ -159,7 +160,7 @@ let () = iter_lines (fun line ->
     let lz = z_of_string l and l1z = z_of_string l1 and l2z = z_of_string l2 in
     let pow2 x = 1 lsl (int_of_string x) in
     let big = zi 1000000000 in
-    let dump t1 nl calls gens =
+    let dump ?(older=[]) t1 nl calls gens =
       let buf = Buffer.create 256 in
       Buffer.add_string buf (Printf.sprintf "calls=%s gens=%d min=%s " (string_of_z calls) gens (string_of_z mm));
       for i = 0 to pow2 nl - 1 do
@@ -173,8 +174,9 @@ let () = iter_lines (fun line ->
       done;
       Buffer.add_string buf " F:";
       List.iter (fun k ->
-        match TableP4.pfind t1 (z_of_string nl) k (hash k) with
-        | Ok (Some (b, s)) -> Buffer.add_string buf (string_of_z b ^ "." ^ string_of_z s ^ ",")
+        match TableP4.pfind_gens ((t1, z_of_string nl) :: older) k (hash k) with
+        | Ok (Some ((g, b), s)) -> let gi = int_of_nat g in
+            Buffer.add_string buf ((if gi > 0 then "g" ^ string_of_int gi ^ ":" else "") ^ string_of_z b ^ "." ^ string_of_z s ^ ",")
         | Ok None -> Buffer.add_string buf "-,"
         | _ -> Buffer.add_string buf "?,") keys;
       print_endline (Buffer.contents buf) in
@@ -193,7 +195,7 @@ let () = iter_lines (fun line ->
                 (if budget < 0 then big else zi budget) (zi 0) with
         | Ok (((t0', t1), c1), thrown) ->
           let gens1 = if thrown then 2 else 1 in
-          if int_of_string l2 = 0 then dump t1 l1 c1 gens1
+          if int_of_string l2 = 0 then dump ~older:(if thrown then [(t0', lz)] else []) t1 l1 c1 gens1
           else
             let gens = if thrown then [(t0', lz); (t1, l1z)] else [(t1, l1z)] in
             (match TableP4.pmigrate_gens hc mm hash gens (TableP4.pempty_table hc mm) l2z big c1 with
